@@ -9,7 +9,7 @@ use std::collections::{BTreeMap, BTreeSet};
 
 pub fn monitor() -> Monitor {
   Monitor { id: "C14",
-    rule: "(cell, delta) pairs with delta >= 1 and depth+delta <= 29: every cell of depths <= 2 with delta <= 4 (quick) / depths <= 4 with delta <= 6 (thorough); deeper depths: the class sample (corners / borders / second ring / centre of each of the 12 base cells) plus uniform cells, delta in 1..=6 and the largest delta allowed. Expected internal walk is built from the reference bit-interleave; the expected external set from the crate's neighbours (judged geometrically by C04) of the deep border cells, with a geometric spot check. Non-trivial = cell on a base-cell border/corner (the external edge crosses a seam) or depth+delta == 29.",
+    rule: "(cell, delta) pairs with delta >= 1 and depth+delta <= 29 (plus, per run, 16 cells with delta drawn from 7..19 so that the small / medium / large z-order implementations and their top bits are all exercised: boxed vs append helpers, external edge (all forms) against the neighbours of the deep border cells): every cell of depths <= 2 with delta <= 4 (quick) / depths <= 4 with delta <= 6 (thorough); deeper depths: the class sample (corners / borders / second ring / centre of each of the 12 base cells) plus uniform cells, delta in 1..=6 and the largest delta allowed. Expected internal walk is built from the reference bit-interleave; the expected external set from the crate's neighbours (judged geometrically by C04) of the deep border cells, with a geometric spot check. Non-trivial = cell on a base-cell border/corner (the external edge crosses a seam) or depth+delta == 29.",
     assumptions: &["Layer::neighbours is geometrically correct (property C04, judged in its own run) — used to build the expected external set", "reference bit-interleave"],
     run, replay }
 }
@@ -40,9 +40,11 @@ fn run(ctx: &mut Ctx, extra: &mut BTreeMap<String, String>) {
       }
     }
     if k == 0 { wrappers(c); }
-    // a few large-delta cases per shard (z-order implementation class of delta >= 17)
-    let n_big = if c.thorough { 6 } else { 1 };
-    for _ in 0..n_big { let depth = rng.below(10) as u8; let dd = 17 + rng.below(if c.thorough { 3 } else { 2 }) as u8; let cs = sample_cells(&mut rng, depth, 8); let h = cs[rng.below(cs.len() as u64) as usize]; judge_big(c, nested::get_or_create(depth), depth, h, dd); }
+    // larger deltas, one list entry per shard: the z-order implementation is chosen by delta (<= 8 small, 9..16 medium, >= 17 large) and the
+    // top bits of each class are where a truncated mask shows (delta 15/16 for the medium one). Debug builds: delta <= 13 (speed).
+    let list: &[u8] = if c.pass == "debug" { &[7, 8, 9, 10, 11, 12, 13, 9, 8, 10, 11, 12, 13, 7, 9, 10] } else { &[16, 15, 17, 9, 12, 18, 14, 13, 16, 15, 10, 11, 17, 8, 16, 19] };
+    let n_big = if c.thorough && c.pass != "debug" { 4 } else { 1 };
+    for q in 0..n_big { let dd = list[(k + 5 * q) % list.len()]; let depth = rng.below(10) as u8; let cs = sample_cells(&mut rng, depth, 8); let h = cs[rng.below(cs.len() as u64) as usize]; judge_big(c, nested::get_or_create(depth), depth, h, dd); }
   });
 }
 
@@ -183,7 +185,22 @@ pub fn judge_big(ctx: &mut Ctx, layer: &'static Layer, depth: u8, h: u64, dd: u8
     Err(p) => ctx.violation("external_edge-panics", mk(), p),
     Ok(v) => { let mut g = v.to_vec(); let n0 = g.len(); g.sort(); g.dedup(); if g.len() != n0 { ctx.violation("external_edge-has-duplicates", mk(), format!("{} cells, {} distinct", n0, g.len())); } else if g != want { ctx.violation("external_edge-not-the-adjacent-outside-cells", mk(), format!("got {} want {}", g.len(), want.len())); } }
   }
-  ctx.hard("big-delta(>=17)", &[depth as u64, h, dd as u64]);
+  // internal edge: the closed walk S -> E -> N -> W, and its sorted form
+  ctx.evals_n(2);
+  let mut walk: Vec<u64> = Vec::with_capacity(4 * m as usize);
+  for t in 0..m { walk.push(base | interleave(t, 0)); }
+  for t in 0..m { walk.push(base | interleave(m, t)); }
+  for t in 0..m { walk.push(base | interleave(m - t, m)); }
+  for t in 0..m { walk.push(base | interleave(0, m - t)); }
+  match catch(|| Layer::internal_edge(h, dd)) {
+    Err(p) => ctx.violation("internal_edge-panics", mk(), p),
+    Ok(v) => if v[..] != walk[..] { ctx.violation("internal_edge-not-the-border-walk-from-south-through-east", mk(), format!("{} cells, first difference at {:?}", v.len(), v.iter().zip(walk.iter()).position(|(a, b)| a != b))); }
+  }
+  match catch(|| Layer::internal_edge_sorted(h, dd)) {
+    Err(p) => ctx.violation("internal_edge_sorted-panics", mk(), p),
+    Ok(v) => { let mut w = walk.clone(); w.sort(); if v[..] != w[..] { ctx.violation("internal_edge_sorted-not-the-sorted-border-set", mk(), format!("{} cells", v.len())); } }
+  }
+  ctx.hard(&format!("big-delta:z-order-class-{}", if dd <= 8 { "small" } else if dd <= 16 { "medium" } else { "large" }), &[depth as u64, h, dd as u64]);
 }
 
 /// the convenience wrappers must accept every depth + delta <= 29
